@@ -168,6 +168,16 @@ fn run_seq(sc: &Value) {
                 let r = std::panic::catch_unwind(std::panic::AssertUnwindSafe(|| in_lib(|| fake(inj.as_mut().unwrap(), &a, &v))));
                 emit(json!({"ev":"Fake","a":a,"v":v,"ok":r.is_ok()}));
             }
+            "FakeRefused" => {
+                // the page of the poll function refuses to become writable for this one request
+                let (a, v) = (s(st, "a"), s(st, "v"));
+                crate::interpose::set_policy(Some(crate::interpose::Policy { mprotect_fail_at: 1, ..Default::default() }));
+                let r = std::panic::catch_unwind(std::panic::AssertUnwindSafe(|| in_lib(|| fake(inj.as_mut().unwrap(), &a, &v))));
+                crate::interpose::set_policy(None);
+                crate::interpose::set_in_lib(false);
+                let cls = r.as_ref().err().map(|p| panics::classify(&panics::payload_str(&**p)).0).unwrap_or("");
+                emit(json!({"ev":"FakeRefused","a":a,"v":v,"ok":r.is_ok(),"cls":cls}));
+            }
             "Await" => {
                 let a = s(st, "a");
                 argn += 3;
